@@ -508,6 +508,31 @@ def same_name_stage(ck, rng, stats):
             sb.cleanup()
 
 
+def attachment_error_stage(ck, rng, stats):
+    """a condition that cannot be evaluated for one part of a message (undecodable base64) is an error for the message - the rule neither
+    wins nor loses, no later rule is tried - wherever the part stands among parts for which the condition holds or fails"""
+    good = b'Content-Type: text/plain\n\nneedle in part\n'
+    other = b'Content-Type: text/plain\n\nnothing here\n'
+    broken = b'Content-Type: text/plain\nContent-Transfer-Encoding: base64\n\n@@@ not base64 @@@\n'
+    for parts, label in (([broken, good], 'broken, matching'), ([other, broken, good], 'plain, broken, matching'), ([broken, other], 'broken, plain')):
+        for cond in ('attachment body /needle/', '! attachment body /needle/', 'attachment body /needle/ or all', 'all and attachment body /needle/'):
+            sb = mdrun.Sandbox()
+            src = sb.maildir('src'); mdA = sb.maildir('mdA'); mdB = sb.maildir('mdB')
+            text = b'To: a\nContent-Type: multipart/mixed; boundary="ae"\n\n' + b''.join(b'--ae\n' + p for p in parts) + b'--ae--\n'
+            sb.add(src, 'new', text)
+            conf = sb.write_conf(('maildir "%s" {\n\tmatch %s move "%s"\n\tmatch all move "%s"\n}\n' % (src, cond, mdA, mdB)).encode())
+            rc, out, err = sb.run([], conf=conf)
+            stats['runs'] += 1; stats['attachment_error_cases'] = stats.get('attachment_error_cases', 0) + 1
+            left = len(sb.snapshot(src)); na = len(sb.snapshot(mdA)); nb = len(sb.snapshot(mdB))
+            # "... or all": the left operand is evaluated first and fails; "all and ...": the right one fails
+            if rc == 0 or left != 1 or na or nb:
+                stats['viol'] += 1
+                ck.violation('message with parts (%s), rules "match %s move A / match all move B": the condition cannot be evaluated for the undecodable part, so '
+                             'nothing is done and the status is non-zero; observed A %d, B %d, left %d, exit %d' % (label, cond, na, nb, left, rc),
+                             {'stage': 'attachment-error', 'parts': label, 'cond': cond, 'exit': rc, 'stderr': err[-300:].decode(errors='replace')})
+            sb.cleanup()
+
+
 def macro_stage(ck, rng, stats):
     """macros in rule trees: names that are prefixes / extensions of one another, defined in the file and on the command line (-D wins
     over the file for the SAME name only); used as header name, pattern subject and destination"""
@@ -552,6 +577,7 @@ def run(ck):
     stats = dict(runs=0, evals=0, dis=0, viol=0, clean=0, T1=0, T2=0, T3=0, nontrivial=set())
     world_stage(ck, rng, stats)
     same_name_stage(ck, rng, stats)
+    attachment_error_stage(ck, rng, stats)
     macro_stage(ck, rng, stats)
     bystanders(ck, rng, stats)
     formula_stage(ck, rng, stats)
@@ -582,7 +608,7 @@ def run(ck):
         'distinct_nontrivial': len(stats['nontrivial']),
         'rule': 'rule trees: a bounded-exhaustive family (<= 3 rules per block, depth <= 1, 6 conditions x 6 action lists, sub-sampled in the quick tier), a family with pass / break inside blocks nested one and two levels deep (all pairs of rules over 3 conditions x 6 action lists, 2 outer conditions, 3 continuations; every 17th in the quick tier) and random '
                 'trees (depth <= 3, <= 4 rules per block, and/or/!/parentheses/unparenthesised chains, pass/break as last action), each on all 8 truth assignments '
-                'of 3 matchers; plus 12 runs over a maildir holding non-message files (symbolic links to a matching message file / dangling / to a directory, a sub-directory, a FIFO) with file types reported and not reported by readdir; 8 formulas with negated / parenthesised isdirectory and command matchers taking back-references; 5 layouts of blocks naming several maildirs (string prefixes, a maildir nested in another, trailing slashes); 4 runs in which the command of the first message changes what an isdirectory / command condition of the later ones tests; 6 runs over two messages with the same file name in different directories and different file times under a file-date condition; 4 macro layouts (names that are prefixes of one another, in the file and with -D) used as header name and destination; non-trivial = the model or the documented semantics select at least one action; distinct = distinct (tree, assignment)',
+                'of 3 matchers; plus 12 runs over a maildir holding non-message files (symbolic links to a matching message file / dangling / to a directory, a sub-directory, a FIFO) with file types reported and not reported by readdir; 8 formulas with negated / parenthesised isdirectory and command matchers taking back-references; 5 layouts of blocks naming several maildirs (string prefixes, a maildir nested in another, trailing slashes); 4 runs in which the command of the first message changes what an isdirectory / command condition of the later ones tests; 12 attachment conditions over messages with an undecodable part before / between / after other parts; 6 runs over two messages with the same file name in different directories and different file times under a file-date condition; 4 macro layouts (names that are prefixes of one another, in the file and with -D) used as header name and destination; non-trivial = the model or the documented semantics select at least one action; distinct = distinct (tree, assignment)',
         'samples': samples,
         'traces_validated_against_impl': stats['evals'],
         'disagreements_checked': stats['dis'],
